@@ -371,7 +371,8 @@ class Conv:
             raise Undrivable("no fault in the behaviour")
         return {"id": self.sid, "family": "C18", "agents": cs.DEFAULT_AGENTS, "files": self.files,
                 "core": {"child": True} if self.child else {}, "scripts": [], "hooks": {}, "steps": self.steps, "isolated": True,
-                "model": {"child": self.child, "points": self.points, "origin": self.origin}}
+                "model": {"child": self.child, "points": self.points, "origin": self.origin,
+                          "behaviour": ["%s(%s)" % (a["act"], a["arg"]) if a["arg"] else a["act"] for a in self.acts[1:]]}}
 
 
 def point_key(p):
